@@ -340,7 +340,10 @@ StepNeed == LET ps == {p \in SUBSET LineTensors : Cardinality(p) = 2 /\ {T.a : T
             IF ps = {} THEN 0
             ELSE LET sz(p) == LET S == CHOOSE S \in p : TRUE  T == CHOOSE T \in p : T # S IN FullLat(cfg, S.a, T.a)
                  IN  CHOOSE m \in {sz(p) : p \in ps} : \A p \in ps : sz(p) <= m
-LinesMerged == IF cfg.task = "envs" THEN ei ELSE done[step.side] + 2
+Opp(d) == CASE d = "xmin" -> "xmax" [] d = "xmax" -> "xmin" [] d = "ymin" -> "ymax" [] d = "ymax" -> "ymin"
+\* lines absorbed from this side so far + the two of this step (+ what the opposite boundary holds when the two meet)
+LinesMerged == IF cfg.task = "envs" THEN ei
+               ELSE done[step.side] + 2 + (IF Sep(bnd, Axis(step.side)) = 1 THEN done[Opp(step.side)] ELSE 0)
 NeedIsCross ==
   pc = "handover" => (StepNeed = 0 \/ StepNeed = PowI(cfg.D, NL(cfg.ly) * LinesMerged))
 
